@@ -91,7 +91,8 @@ Inductive op :=
 | OReset                                           (* the call-state cache is dropped (restart, other node) *)
 | OContinue (who : nat) (cur call : tokref)  (* /exchange *)
 | OResolveRaw (who : nat) (callidx : nat) (call : tokref)  (* resolveCall alone (component level) *)
-| OResume (who : nat) (tok : tokref).        (* a request carrying VGI-Session *)
+| OResume (who : nat) (tok : tokref)         (* a request carrying VGI-Session *)
+| OTeardown (who : nat) (tok : tokref).      (* DELETE {prefix}/__session__ carrying VGI-Session *)
 
 
 (* ---- Part B: tokens, slots, decisions — parametric in the AEAD ---------------- *)
@@ -153,6 +154,23 @@ Section AEAD.
     match open_slot Sticky j t with
     | None => false
     | Some s => existsb (fun e => beqb (fst e) s && beqb (snd e) (principal_key j)) reg
+    end.
+
+  (* handleStickyDelete: the token is opened under the presenter's identity and looked
+     up exactly as on a resume; Some sid = that session is torn down (204) *)
+  Definition teardown_dec (reg : list (bytes * bytes)) (j : ident) (t : token) : option bytes :=
+    match open_slot Sticky j t with
+    | None => None
+    | Some s => if existsb (fun e => beqb (fst e) s && beqb (snd e) (principal_key j)) reg
+                then Some s else None
+    end.
+
+  (* the routes on which a sticky-session token is presented *)
+  Inductive sroute := RResume | RTeardown.
+  Definition sticky_accepts (r : sroute) (reg : list (bytes * bytes)) (j : ident) (t : token) : bool :=
+    match r with
+    | RResume => resume_dec reg j t
+    | RTeardown => is_some (teardown_dec reg j t)
     end.
 
   Record st := {
@@ -228,6 +246,20 @@ Section AEAD.
         | None => (s, false)
         | Some t => (s, resume_dec (s_reg s) (idof who) t)
         end
+    | OTeardown who tok =>
+        match deref s Sticky tok with
+        | None => (s, false)
+        | Some t =>
+            match teardown_dec (s_reg s) (idof who) t with
+            | None => (s, false)
+            | Some sid =>
+                (* sessionRegistry.close(sid) *)
+                ({| s_toks := s_toks s; s_ncalls := s_ncalls s; s_nsess := s_nsess s; s_nonce := s_nonce s;
+                    s_cache := s_cache s;
+                    s_reg := filter (fun e => negb (beqb (fst e) sid)) (s_reg s);
+                    s_last := s_last s |}, true)
+            end
+        end
     end.
 
   Fixpoint run (s : st) (ops : list op) : list bool :=
@@ -288,16 +320,28 @@ Definition safe (slot : kind) (j : ident) (p : option prov) (b : bool) : bool :=
     end
   else true.
 
+(* a sticky-session token presented by [j] on ANY route (resume or teardown):
+   accepted ==> minted as a session token for [j]; a session already torn down is lost;
+   the live session of [j] itself is accepted — whatever happened before *)
+Definition sticky_spec (j : ident) (p : option prov) (dead : list bytes) (b : bool) : bool :=
+  safe Sticky j p b
+  && match p with
+     | Some (Sticky, i, sid) =>
+         if has_key sid dead then negb b
+         else if ident_eqb i j then b else true
+     | _ => true
+     end.
+
 Fixpoint spec_run (ids : list raw_ident) (ops : list op) (o : obs) (ptoks : list prov) (ncalls nsess : nat)
-         (plast : option prov) : bool :=
+         (plast : option prov) (dead : list bytes) : bool :=
   match ops, o with
   | [], [] => true
   | OInit who :: r, b :: o' =>
       let i := idof ids who in let c := callid ncalls in
-      b && spec_run ids r o' (ptoks ++ [(Cursor, i, c); (Call, i, c)]) (S ncalls) nsess plast
+      b && spec_run ids r o' (ptoks ++ [(Cursor, i, c); (Call, i, c)]) (S ncalls) nsess plast dead
   | OOpen who :: r, b :: o' =>
-      b && spec_run ids r o' (ptoks ++ [(Sticky, idof ids who, sessid nsess)]) ncalls (S nsess) plast
-  | OReset :: r, b :: o' => b && spec_run ids r o' ptoks ncalls nsess plast
+      b && spec_run ids r o' (ptoks ++ [(Sticky, idof ids who, sessid nsess)]) ncalls (S nsess) plast dead
+  | OReset :: r, b :: o' => b && spec_run ids r o' ptoks ncalls nsess plast dead
   | OContinue who cur call :: r, b :: o' =>
       let j := idof ids who in
       let pc := pderef ptoks plast cur in
@@ -311,18 +355,17 @@ Fixpoint spec_run (ids : list raw_ident) (ops : list op) (o : obs) (ptoks : list
          | _, _ => true
          end
       && spec_run ids r o' ptoks ncalls nsess
-           (if b then match pc with Some (_, _, c) => Some (Cursor, j, c) | None => plast end else plast)
-  | OResolveRaw _ _ _ :: r, _ :: o' => spec_run ids r o' ptoks ncalls nsess plast
+           (if b then match pc with Some (_, _, c) => Some (Cursor, j, c) | None => plast end else plast) dead
+  | OResolveRaw _ _ _ :: r, _ :: o' => spec_run ids r o' ptoks ncalls nsess plast dead
   | OResume who tok :: r, b :: o' =>
-      let j := idof ids who in
+      sticky_spec (idof ids who) (pderef ptoks plast tok) dead b
+      && spec_run ids r o' ptoks ncalls nsess plast dead
+  | OTeardown who tok :: r, b :: o' =>
       let p := pderef ptoks plast tok in
-      safe Sticky j p b
-      && match p with
-         | Some (Sticky, i, _) => if ident_eqb i j then b else true
-         | _ => true
-         end
+      sticky_spec (idof ids who) p dead b
       && spec_run ids r o' ptoks ncalls nsess plast
+           (if b then match p with Some (_, _, sid) => sid :: dead | None => dead end else dead)
   | _, _ => false
   end.
 
-Definition spec_ok (i : input) (o : obs) : bool := spec_run (i_ids i) (i_ops i) o [] 0 0 None.
+Definition spec_ok (i : input) (o : obs) : bool := spec_run (i_ids i) (i_ops i) o [] 0 0 None [].
